@@ -8,6 +8,9 @@ CHECKS = {
  "C02": ("2/C02", TECH + ": every name path, prefix and index spelling of the jsonformat tree of every resource of a schema-covering family (all 146 types, every field, each-choice covering)",
          "every schema position (message type x field x list/choice shape x depth) is realised in a generated resource; every path of its JSON tree is evaluated in four spellings on the real Evaluate and compared, by pointer identity and in document order, with the elements jsonformat rendered there; foreign and proto-only names must fail with ErrInvalidField",
          "resources nested deeper than the depth bound and values outside the generator pools are not covered; jsonformat and the proto descriptors are trusted"),
+ "C03": ("2/C03", TECH + ": programs (every node kind, every table function) x inputs x environment aliasing/capacity shapes; every name path of the schema-covering family x continuations; before/after fingerprints",
+         "every (program, input, environment shape) of the finite product is evaluated on the real code; inputs, backing arrays (incl. sentinel-filled spare capacity), slice headers and the compiled expression tree are compared before/after, and every FHIR element of a result must be an input's own node",
+         "reflect/unsafe observe private state; programs beyond the list and resources deeper than the depth bound are not covered"),
  "C05": ("2/C05", TECH + ": all ordered pairs and triples of a typed value pool x 6 operators; all collection pairs up to a length bound",
          "every ordered pair/triple of the value pool and every collection pair within the bound is evaluated on the real Compile/Evaluate and compared with an independent comparator and with the relational laws on the implementation's own outputs",
          "values outside the pool are not covered; reference comparator (math/big, own date/time component model) is trusted"),
